@@ -21,8 +21,9 @@ fn main() {
         }
         // mwh world <backend> <seed> <histories> <events> <out-prefix>
         //   writes <prefix>.ops (contract-level ops), <prefix>.events, <prefix>.impl (observations)
-        Some("world") | Some("matrix") => {
+        Some("world") | Some("matrix") | Some("pages") => {
             let matrix = args[1] == "matrix";
+            let pages = args[1] == "pages";
             let backend = &args[2];
             let seed = arg_u64(&args, 3);
             let n = arg_u64(&args, 4);
@@ -43,6 +44,9 @@ fn main() {
                         }
                         if matrix && i % 6 == 5 {
                             g.probes();
+                        }
+                        if pages && i % 15 == 14 {
+                            g.page_queries();
                         }
                     }
                     g.queries();
